@@ -4,6 +4,7 @@ import (
 	"crypto/sha1"
 	"encoding/json"
 	"fmt"
+	"go/types"
 	"hash/crc32"
 	"os"
 	"os/exec"
@@ -41,12 +42,22 @@ type Obligation struct {
 }
 
 type CheckDef struct {
-	Title       string       `json:"title"`
-	Obligations []Obligation `json:"obligations"`
-	Assumptions []string     `json:"assumptions"`
-	Stubs       []string     `json:"stubs"`
-	Outside     []string     `json:"outside"`
-	Lemmas      []string     `json:"lemmas"`
+	Title       string           `json:"title"`
+	Obligations []Obligation     `json:"obligations"`
+	Assumptions []string         `json:"assumptions"`
+	Stubs       []string         `json:"stubs"`
+	Outside     []string         `json:"outside"`
+	Lemmas      []string         `json:"lemmas"`
+	MethodSets  []MethodSetGuard `json:"method_sets"`
+}
+
+// MethodSetGuard lists the exported methods of a type (or interface) that the harnesses of a check know about,
+// each classified by the harness author. A method of the current tree that is not listed is a new entry point no
+// harness covers: the run says so (INCONCLUSIVE), it is never silently "held".
+type MethodSetGuard struct {
+	Pkg   string   `json:"pkg"`
+	Type  string   `json:"type"`
+	Known []string `json:"known"`
 }
 
 type KnownFinding struct {
@@ -336,6 +347,16 @@ func cmdCheck(args []string) int {
 	inconclusive := false
 	nviol := 0
 	printedKF := map[string]bool{}
+	for _, g := range def.MethodSets {
+		missing, gone := methodSetDiff(l, g)
+		ev.Coverage.MethodSets = append(ev.Coverage.MethodSets, map[string]interface{}{"type": g.Pkg + "." + g.Type, "known": len(g.Known), "not_covered": missing, "no_longer_present": gone})
+		for _, m := range missing {
+			msg := fmt.Sprintf("%s.%s has an exported method %s that no harness of this check knows about (new entry point: not covered)", g.Pkg, g.Type, m)
+			fmt.Printf("INCONCLUSIVE: property=%s %s\n", prop, msg)
+			ev.Coverage.Inconclusive = append(ev.Coverage.Inconclusive, msg)
+			inconclusive = true
+		}
+	}
 	for _, lm := range def.Lemmas {
 		le := runLemma(vroot, lm)
 		ev.Coverage.Lemmas = append(ev.Coverage.Lemmas, le)
@@ -665,4 +686,47 @@ func runLemma(vroot, name string) LemmaEvidence {
 		le.TableChecked = true
 	}
 	return le
+}
+
+// methodSetDiff compares the exported method set of a named type of the loaded tree with the guard's list.
+func methodSetDiff(l *Loaded, g MethodSetGuard) (missing, gone []string) {
+	var obj types.Object
+	for _, p := range l.Prog.AllPackages() {
+		if p.Pkg.Path() == "github.com/KevoDB/kevo/"+g.Pkg {
+			obj = p.Pkg.Scope().Lookup(g.Type)
+		}
+	}
+	if obj == nil {
+		return []string{"(type " + g.Type + " not found)"}, nil
+	}
+	known := map[string]bool{}
+	for _, k := range g.Known {
+		known[k] = true
+	}
+	have := map[string]bool{}
+	t := obj.Type()
+	var ms *types.MethodSet
+	if _, isIface := t.Underlying().(*types.Interface); isIface {
+		ms = types.NewMethodSet(t)
+	} else {
+		ms = types.NewMethodSet(types.NewPointer(t))
+	}
+	for i := 0; i < ms.Len(); i++ {
+		m := ms.At(i).Obj()
+		if !m.Exported() {
+			continue
+		}
+		have[m.Name()] = true
+		if !known[m.Name()] {
+			missing = append(missing, m.Name())
+		}
+	}
+	for k := range known {
+		if !have[k] {
+			gone = append(gone, k)
+		}
+	}
+	sort.Strings(missing)
+	sort.Strings(gone)
+	return
 }
